@@ -13,7 +13,7 @@ import (
 
 func init() { Registry["C14"] = C14 }
 
-var c14Versions = []string{"4.0.0", "4.10.2", "4.1.0", "4.1.0-rc1", "4.1.0-RC1", "v4.2.0", "4.3.0+b5", "4.4", "v4.5.0-rc2+b1", "10.20.30-dev-1"}
+var c14Versions = []string{"4.0.0", "4.10.2", "4.1.0", "4.1.0-rc1", "4.1.0-RC1", "v4.2.0", "4.3.0+b5", "4.4", "v4.5.0-rc2+b1", "10.20.30-dev-1", "0.9.1", "v0.10"}
 var c14Rejected = []string{"4.x", "", "version4", "4.0.0.0.1"}
 var c14Years = []string{"2025", "2031"}
 
